@@ -220,7 +220,11 @@ impl<ErrType, R: CustomRead<ErrType>, BufferType: SliceWrapperMut<u8>, Alloc: Br
         let mut avail_out = buf.len();
         let mut avail_in = self.input_len - self.input_offset;
         while output_offset == 0 {
-            if self.input_len < self.input_buffer.slice_mut().len() && !self.input_eof {
+            // fill the buffer completely (or up to EOF) before handing it to the encoder: what the
+            // encoder is offered then depends on the buffer size only, not on how many bytes each
+            // read of the wrapped stream happened to return (qualities 0 and 1 emit one
+            // meta-block per call)
+            while self.input_len < self.input_buffer.slice_mut().len() && !self.input_eof {
                 match self
                     .input
                     .read(&mut self.input_buffer.slice_mut()[self.input_len..])
